@@ -246,9 +246,15 @@ def plumbing(ctx, P, which):
     # every successful return has registered the entity: an `Ok` reached without the insertion (an early return for
     # some "nothing can use it" case) makes validation work on an incomplete set
     I = {bi for bi, t in ins}
+    # ... or is known to hold it already (`if set.contains(&e) { return Ok(()) }`)
+    for bi in range(len(f.blocks)):
+        if not f.blocks[bi]["cl"] and any(x[0] == "call" and x[1].endswith("::contains") and x[2] is True and
+                                          any(("cell:TxInfo." + setname) in a for a in x[3] if isinstance(a, (set, frozenset)))
+                                          for x in fx.facts_at(bi)):
+            I.add(bi)
     oks = {bi for (bi, si, rv, ln) in find_aggregates(f, "core::result::Result", "Ok")}
     ctx.floor("R7", len(oks), 1, "Ok returns of TransactionManager::%s" % which)
-    ctx.ob("R7", "TransactionManager::%s#always-registers" % which, bool(I) and must_pass(f, 0, I, oks),
+    ctx.ob("R7", "TransactionManager::%s#always-registers" % which, bool(ins) and must_pass(f, 0, I, oks),
            what="TransactionManager::%s can return Ok without inserting the entity into TxInfo.%s (a path to the success value "
                 "that skips the insertion): the transaction is validated against an incomplete %s" % (which, setname, setname.replace("_", " ")),
            where=f.loc())
